@@ -63,6 +63,14 @@ def plan(seed, tier):
     for i, sub in enumerate(xsubs[:10] if tier == "quick" else xsubs):
         for internal in (False, True):
             cases.append({"id": f"sel-xop-{seed}-{i}-{int(internal)}", "seed": seed * 100003 + 8000 + i, "subset": sub, "internal": internal, "extop": True})
+    # RPCs that share all their types: dropping one prunes no message or enum of its file
+    snames = ["Shapes.GetShape", "Shapes.FetchShape", "Shapes.ReviseShape", "Shapes.DropShape", "Painter.Paint", "Painter.Repaint"]
+    ssubs = [list(c) for r in range(1, len(snames)) for c in itertools.combinations(snames, r)]
+    rng.shuffle(ssubs)
+    fixed = [["Shapes.GetShape", "Painter.Paint"], ["Shapes.GetShape", "Shapes.ReviseShape"], ["Shapes.FetchShape", "Painter.Repaint", "Painter.Paint"]]
+    for i, sub in enumerate(fixed + (ssubs[:5] if tier == "quick" else ssubs)):
+        for internal in ((False, True) if i % 2 == 0 or tier != "quick" else (False,)):
+            cases.append({"id": f"sel-shared-{seed}-{i}-{int(internal)}", "seed": seed * 100003 + 8500 + i, "subset": sub, "internal": internal, "api": "shared"})
     for i, b in enumerate(["unknown_method", "other_version", "unknown_service", "other_package"]):
         cases.append({"id": f"sel-bad-{seed}-{i}", "seed": seed * 100003 + 9000 + i, "subset": ["Library.GetShelf"], "internal": False, "bad": b})
     return cases
@@ -70,6 +78,8 @@ def plan(seed, tier):
 
 def build_api(case):
     rng = random.Random(case["seed"])
+    if case.get("api") == "shared":
+        return apigen.shared_types_api(rng, "s%d" % (case["seed"] % 100000))
     return apigen.selective_api(rng, "s%d" % (case["seed"] % 100000))
 
 
@@ -254,6 +264,8 @@ def run_case(case):
         return {"verdict": "violated" if viol else "held", "violations": viol, "evaluations": 1, "counters": counters,
                 "nontrivial_sigs": [] if viol else ["rejected|" + bad_kind], "sample": {"bad": bad_kind, "error": f"{g.exc_type}: {(g.exc_msg or '')[:120]}"}}
     mech = {"internal": case["internal"], "subset_size": len(case["subset"])}
+    if case.get("api") == "shared":
+        mech["api"] = "rpcs-sharing-all-their-types"
     if not g.ok:
         return pipeline.gen_failed_result(g, api, mech)
     model = rdm.Model(req)
